@@ -81,13 +81,17 @@ func (c *chooser) loadStep(K int) string {
 		q = 1 + r.Intn(2)
 	}
 	s := 0
-	if r.Chance(1, 3) {
-		s = 1 + r.Intn(2)
+	if r.Chance(2, 5) {
+		s = 1 + r.Intn(7)
 	}
-	return fmt.Sprintf("L:%s:%d:%d:%d:%d:%d:%d", keysText(c.keys(K)), p, d, m, rt, q, s)
+	text := fmt.Sprintf("L:%s:%d:%d:%d:%d:%d:%d", keysText(c.keys(K)), p, d, m, rt, q, s)
+	if r.Chance(1, 8) {
+		text += fmt.Sprintf(":%d", 1+r.Intn(3)) // the first upstream has its own max_requests
+	}
+	return text
 }
 
-var answerPick = []string{"ok", "ok", "e5", "e5", "rst", "rst", "rst", "rst", "hup", "pan", "her"}
+var answerPick = []string{"ok", "ok", "e5", "e5", "c404", "c429", "c502", "c503", "rst", "rst", "rst", "rst", "rst", "hup", "pan", "her"}
 
 func (c *chooser) next(k *kase) (step, bool) {
 	if c.n >= c.max {
@@ -266,8 +270,9 @@ func (p *prop) Generate(rng *core.Rand, tier string, emit func(string)) {
 				if j.timed {
 					c.max = 4 + r.Intn(14)
 				}
-				out, steps := p.execSched(K, c, 0)
-				results[j.idx] = genCase{line: schedLine(K, steps), out: out}
+				cf := r.Chance(1, 3)
+				out, steps := p.execSched(K, c, 0, cf)
+				results[j.idx] = genCase{line: schedLine(K, steps, cf), out: out}
 			}
 		}()
 	}
